@@ -1,4 +1,6 @@
 import Sqljson.Audit
+import Sqljson.Props.C16b
+import Sqljson.Props.C01c
 import Sqljson.Props.Fuel
 import Sqljson.Props.C09b
 import Sqljson.Props.C06b
@@ -36,3 +38,6 @@ open Sqljson
 #audit_ns C01 Sqljson.C01b
 #audit C01 [Sqljson.Exec.Refine.refine_run]
 #audit_ns C01 Sqljson.C05b
+#audit_ns C01 Sqljson.C01c
+#audit C01 [Sqljson.SemLink.parse_ok_Shape, Sqljson.SemLink.shape_sem, Sqljson.SemLink.ofNode_toNode]
+#audit_ns C01 Sqljson.C16b
